@@ -20,7 +20,8 @@ TEXT = {
                  "itself with the model's own fuel), parseItem_render, policy_rejected (no policy inside a block), empty_body_rejected, missing_terminator_rejected. Props/C14Lexer.lean, "
                  "character level: lex_spell (every list of well-formed tokens, each written followed by one space, lexes back to itself under the first-match rule order), "
                  "tokWF_exact (the well-formedness predicate is exactly the set of tokens that re-lex), parseBlockText_spell / parseAuthorizerText_spell (text entry points = lexer then "
-                 "token parser). Props/TablesGrammar.lean: the parser's lexer rules (names, regular expressions, order) and every grammar production (struct tags read by "
+                 "token parser). Props/C14Text.lean composes them: parseBlockText_roundtrip / parseAuthorizerText_roundtrip / parseSingleText_roundtrip (every well-formed statement list written as TEXT "
+                 "and read by the model's text entry points gives back exactly the statements; itemLexOK is exactly 'every rendered token re-lexes'). Props/TablesGrammar.lean: the parser's lexer rules (names, regular expressions, order) and every grammar production (struct tags read by "
                  "reflection) regenerated on every run and compared with reviewed copies; the literal lists of the Lean lexer proved to spell the source's regular expressions. Tied by texts rendered from "
                  "random abstract syntax with random layout compared with the generator's AST and the Lean grammar model, error and deviation streams, token corruptions, raw "
                  "strings, and first use of every parsed element.",
